@@ -111,6 +111,16 @@ def make_block(rt, k, tag, cd=None, md=None):
     return b
 
 
+def layout_format(rt, tag):
+    """the format CODE the layout (spec/TdfLayout.tla, BlockStructs) assigns to the block
+    make_block(rt, k, tag) is meant to be - independent of the library's enums"""
+    if rt == 5:
+        return 1 if tag % 2 else 2          # with links / without links
+    if rt == 16:
+        return 1 if tag % 3 != 0 else 0     # standard / unknown
+    return {11: 1, 12: 1, 9: 1, 7: 2, 4: 2, 2: 1, 6: 1}[rt]
+
+
 class NotABlock:
     """an object that is not a block at all"""
 
